@@ -25,6 +25,10 @@ func c11Switches() []c11Switch {
 		{"ciba-jar-required", []Opt{{Name: "WithCIBAJARRequired"}}},
 		{"pkce-required", []Opt{{Name: "WithPKCERequired", S: "S256", L: pk}}},
 		{"pkce+public", []Opt{{Name: "WithPKCE", S: "S256", L: pk}}},
+		// one enabled method only: the other one is a disabled method, also when the request leaves the method out
+		{"pkce-required/S256-only", []Opt{{Name: "WithPKCERequired", S: "S256"}}},
+		{"pkce+public/S256-only", []Opt{{Name: "WithPKCE", S: "S256"}}},
+		{"pkce-required/plain-default", []Opt{{Name: "WithPKCERequired", S: "plain", L: []string{"S256"}}}},
 		{"dpop-required", []Opt{{Name: "WithDPoPRequired"}}},
 		{"dpop+client", []Opt{{Name: "WithDPoP"}}},
 		{"tls-required", []Opt{{Name: "WithTLSCertTokenBindingRequired"}}},
@@ -89,13 +93,14 @@ func c11Probes(w *World) *probeRun {
 	authorize := func(client int, ps Params) Obs {
 		return p.do(Op{Kind: "Authorize", Client: client, Params: ps, PolicyAvail: true, Pol: pol})
 	}
-	redeem := func(client int, a Obs, b Bind) Obs {
+	redeemV := func(client int, a Obs, b Bind, v PK) Obs {
 		if a.Kind != "Nav" || a.NCode == 0 {
 			return Obs{}
 		}
 		return p.do(Op{Kind: "Token", Grant: "authorization_code", Cred: Cred{ID: client, OK: true}, Code: a.NCode,
-			Redirect: fmt.Sprintf("https://c%d.example/cb", client), Verifier: verifier, Bind: b})
+			Redirect: fmt.Sprintf("https://c%d.example/cb", client), Verifier: v, Bind: b})
 	}
+	redeem := func(client int, a Obs, b Bind) Obs { return redeemV(client, a, b, verifier) }
 	var refreshTok Handle
 	for _, x := range []int{1, 2, 3} {
 		t := redeem(x, authorize(x, good(x, goodRT)), none)
@@ -113,6 +118,33 @@ func c11Probes(w *World) *probeRun {
 		ps := good(x, goodRT)
 		ps.Scopes = "email"
 		authorize(x, ps)
+		// the mechanism omitted entirely: no scope parameter at all
+		ps = good(x, goodRT)
+		ps.Scopes = ""
+		redeem(x, authorize(x, ps), none)
+	}
+	// PKCE downgrades: the method left out (the server's default applies) or named, the challenge made for
+	// S256 or verbatim, redeemed with the pre-image, with the challenge string itself, with a wrong
+	// verifier, with none
+	if pkceDefault(opts) != "" {
+		v := verifierPK()
+		forms := []struct {
+			ch PK
+			m  string
+		}{{PK{Kind: 2, Inner: &v}, ""}, {v, ""}, {PK{Kind: 2, Inner: &v}, "S256"}, {v, "plain"}}
+		for _, x := range []int{1, 3} {
+			for _, f := range forms {
+				for _, vf := range []PK{v, f.ch, {Kind: 1, N: 9, LenOK: true}, {}} {
+					ps := good(x, goodRT)
+					ps.Challenge, ps.Method = f.ch, f.m
+					a := authorize(x, ps)
+					if a.Kind != "Nav" || a.NCode == 0 {
+						break
+					}
+					redeemV(x, a, none, vf)
+				}
+			}
+		}
 	}
 	// client 1: downgrade attempts on response type, mode, nonce, implicit binding
 	authorize(1, good(1, "token"))
@@ -147,6 +179,45 @@ func c11Probes(w *World) *probeRun {
 			redeem(x, a, both())
 		}
 	}
+	// pushed requests that leave a mechanism out of BOTH the pushed and the outer parameters (scope,
+	// code_challenge), or carry it in the outer parameters only; a pushed challenge without method
+	// redeemed with the challenge string itself
+	for _, x := range []int{1, 3} {
+		type variant struct {
+			name  string
+			inner func(*Params)
+			outer Params
+		}
+		vs := []variant{
+			{"scope nowhere", func(ps *Params) { ps.Scopes = "" }, Params{RespType: goodRT}},
+			{"scope outside only", func(ps *Params) { ps.Scopes = "" }, Params{RespType: goodRT, Scopes: "openid email"}},
+			{"openid outside only", func(ps *Params) { ps.Scopes = "email" }, Params{RespType: goodRT, Scopes: "openid email"}},
+			{"challenge nowhere", func(ps *Params) { ps.Challenge, ps.Method = PK{}, "" }, Params{RespType: goodRT, Scopes: "openid email"}},
+		}
+		for _, vr := range vs {
+			ps := good(x, goodRT)
+			vr.inner(&ps)
+			pr := p.do(Op{Kind: "Par", Cred: Cred{ID: x, OK: true}, Params: ps})
+			if pr.Kind == "Par" {
+				o := vr.outer
+				o.RequestURI = pr.H
+				redeem(x, authorize(x, o), none)
+			}
+		}
+		if pkceDefault(opts) != "" {
+			v := verifierPK()
+			for _, ch := range []PK{v, {Kind: 2, Inner: &v}} {
+				for _, vf := range []PK{ch, v} {
+					ps := good(x, goodRT)
+					ps.Challenge, ps.Method = ch, ""
+					pr := p.do(Op{Kind: "Par", Cred: Cred{ID: x, OK: true}, Params: ps})
+					if pr.Kind == "Par" {
+						redeemV(x, authorize(x, Params{RequestURI: pr.H, RespType: goodRT, Scopes: "openid email"}), none, vf)
+					}
+				}
+			}
+		}
+	}
 	// client credentials under every binding variant
 	for _, x := range []int{1, 2} {
 		for _, b := range []Bind{none, dp(), cert, both(), badProof()} {
@@ -170,6 +241,7 @@ func c11Probes(w *World) *probeRun {
 			Bind: b, InitOK: true, Sub: "alice", Granted: scopes})
 	}
 	bc(5, "email", none, 0)
+	bc(5, "", none, 0) // no scope parameter at all
 	for _, b := range []Bind{none, dp(), cert} {
 		o := bc(5, "openid email", none, 0)
 		if o.Kind == "Ciba" {
@@ -251,12 +323,12 @@ func init() {
 			ctx.AddCase(pr.syscase(c.profile + " " + c.note))
 		}
 		ctx.Meta.Rule = "every required switch (and the enabled-only variant with a client that requires the mechanism) alone under the three profiles, random pairs (quick: 70 openid + 20 per FAPI profile; thorough: all pairs and 600 triples), x ~60 bypass probes; distinct by projected trace; non-trivial = at least one artifact obtained and one refusal"
-		ctx.writeSysCasesWith(c19HeaderC11, "check_case_g", "mon_C11", true)
+		ctx.writeSysCasesWith(c11HeaderEff, "check_case_g", "mon_C11e", true)
 		ctx.writeCasesJSON()
 	}})
 }
 
-const c19HeaderC11 = `From Verif Require Import Base Scope Types Prog Pop Token Authorize System Config Required Run.
-From Verif.Corr Require Import C11.
+const c11HeaderEff = `From Verif Require Import Base Scope Types Prog Pop Token Authorize System Config Required Run Monitors.
+From Verif.Corr Require Import C11 C11Eff.
 Local Open Scope N_scope.
 `
